@@ -300,6 +300,75 @@ static int find_point_on_wire(const Pipe *p, const SM2_Z256_POINT *pt)
 	return p->sent_len >= 64 && memmem(p->sent, p->sent_len, xy, 64) != NULL;
 }
 
+/* TLS 1.3 key schedule (RFC 8446 7.1) recomputed from the validated ECDHE shared secret and the handshake
+ * messages the two endpoints SENT: the handshake/master secrets and the four traffic secrets are locals of
+ * tls13_do_connect/accept and exist nowhere in TLS_CONNECT.  The derived server application key is compared
+ * with the key recovered from the live connection, so the derivation itself is validated (probe). */
+int tls13_record_decrypt(const BLOCK_CIPHER_KEY *key, const uint8_t iv[12],
+	const uint8_t seq_num[8], const uint8_t *enced_record, size_t enced_recordlen,
+	uint8_t *record, size_t *recordlen);
+
+static void tls13_schedule_collect(Conn *c, const uint8_t shared[64])
+{
+	const DIGEST *digest = DIGEST_sm3();
+	const Pipe *c2s = &c->pipe[DIR_C2S], *s2c = &c->pipe[DIR_S2C];
+	static uint8_t rec[TLS_MAX_RECORD_SIZE + 64];
+	uint8_t zeros[32] = { 0 }, early[32], hs[32], c_hs[32], s_hs[32], master[32], c_ap[32], s_ap[32];
+	uint8_t key[16], iv[12], seq[8] = { 0 };
+	DIGEST_CTX null_ctx, ctx;
+	BLOCK_CIPHER_KEY bk;
+	if (c2s->sent_len < 9 || s2c->sent_len < 9) return;
+	size_t chl = 5 + ((size_t)c2s->sent[3] << 8 | c2s->sent[4]);
+	size_t shl = 5 + ((size_t)s2c->sent[3] << 8 | s2c->sent[4]);
+	if (chl > c2s->sent_len || shl > s2c->sent_len || c2s->sent[0] != TLS_record_handshake || s2c->sent[0] != TLS_record_handshake) return;
+	if (digest_init(&null_ctx, digest) != 1 || digest_init(&ctx, digest) != 1) return;
+	digest_update(&ctx, c2s->sent + 5, chl - 5);
+	digest_update(&ctx, s2c->sent + 5, shl - 5);
+	tls13_hkdf_extract(digest, zeros, zeros, early);
+	tls13_derive_secret(early, "derived", &null_ctx, hs);
+	tls13_hkdf_extract(digest, hs, shared, hs);
+	tls13_derive_secret(hs, "c hs traffic", &ctx, c_hs);
+	tls13_derive_secret(hs, "s hs traffic", &ctx, s_hs);
+	tls13_derive_secret(hs, "derived", &null_ctx, master);
+	tls13_hkdf_extract(digest, master, zeros, master);
+	leak_add_secret("tls13_handshake_secret", hs, 32);
+	leak_add_secret("tls13_handshake_traffic_secret", c_hs, 32);
+	leak_add_secret("tls13_handshake_traffic_secret", s_hs, 32);
+	leak_add_secret("master_secret", master, 32);
+	/* the server's encrypted flight, decrypted with the derived handshake key, completes the transcript */
+	tls13_hkdf_expand_label(digest, s_hs, "key", NULL, 0, 16, key);
+	tls13_hkdf_expand_label(digest, s_hs, "iv", NULL, 0, 12, iv);
+	leak_add_secret("traffic_key", key, 16);
+	if (block_cipher_set_encrypt_key(&bk, BLOCK_CIPHER_sm4(), key) != 1) return;
+	const RecInfo *ri = s2c->recs;
+	int n = s2c->nrecs < MAX_REC ? s2c->nrecs : MAX_REC;
+	int fin = 0;
+	for (int i = 1; i < n && !fin; i++) {
+		size_t rl = sizeof(rec);
+		if (ri[i].type == TLS_record_change_cipher_spec) continue;
+		if (ri[i].off + ri[i].len > s2c->sent_len || ri[i].len > TLS_MAX_RECORD_SIZE) return;
+		if (tls13_record_decrypt(&bk, iv, seq, s2c->sent + ri[i].off, ri[i].len, rec, &rl) != 1) return;
+		tls_seq_num_incr(seq);
+		if (rec[0] != TLS_record_handshake || rl < 9) continue;
+		digest_update(&ctx, rec + 5, rl - 5);
+		if (rec[5] == TLS_handshake_finished) fin = 1;
+	}
+	if (!fin) return;
+	tls13_derive_secret(master, "s ap traffic", &ctx, s_ap);
+	tls13_derive_secret(master, "c ap traffic", &ctx, c_ap);
+	leak_add_secret("tls13_application_traffic_secret", s_ap, 32);
+	leak_add_secret("tls13_application_traffic_secret", c_ap, 32);
+	tls13_hkdf_expand_label(digest, s_ap, "key", NULL, 0, 16, key);
+	for (int e = 0; e < 2; e++) {
+		uint8_t raw[16];
+		TLS_CONNECT *tc = g_ep[e].conn;
+		if (tc && tc->server_write_key.cipher && sm4_recover_key(&tc->server_write_key.u.sm4_key, raw) && !memcmp(raw, key, 16)) {
+			g_sim.probes[PR_TLS13_SCHEDULE]++;
+			break;
+		}
+	}
+}
+
 void leak_deep_collect(const Plan *p)
 {
 	if (g_nconns < 1) return;
@@ -332,6 +401,8 @@ void leak_deep_collect(const Plan *p)
 		if (sm2_do_ecdh(&eph[0], &eph[1].public_key, &sh) == 1) {
 			sm2_z256_point_to_bytes(&sh, xy);
 			leak_add_secret("ecdhe_shared_secret", xy, 32);
+			g_sim.probes[PR_EPH_VALIDATED]++;
+			if (p->proto == P_TLS13) tls13_schedule_collect(c, xy);
 		}
 	}
 	/* application plaintext the library decrypted (or could decrypt: it was written by the peer's application) */
